@@ -194,6 +194,7 @@ MATVEC_PLACES = ["plain", "plus-scalar-x", "plus-x", "minus-x-times-par", "times
                  "two-matrices", "fn", "other-var", "abs", "strided-arg", "with-const-vector", "plus-scalar-x", "of-scaled",
                  "of-abs-difference", "abs-difference-plus-matvec", "of-abs-negated", "of-abs-scaled-by-par"]
 _matvec_counter = [0]
+_len1_counter = [0]
 
 
 def fam_matvec(r):
@@ -261,7 +262,9 @@ def fam_len1_mixed(r):
     vars_ = [("x", ROUND(r, n), None)]
     pars = [("A", "matrix", dict(value=_matrix(r, n, n))), ("c", "plain", dict(value=ROUND(r, 1)))]
     X = ("var", 0, ("w",))
-    which = str(r.choice(["c*x + A@x", "A@(c*x)", "c*(A@x)", "A@x + c", "d[0]*x + A@x"]))
+    opts = ["c*x + A@x", "d[0]*x + A@x", "A@(c*x)", "c*(A@x)", "A@x + c"]
+    which = opts[_len1_counter[0] % len(opts)]             # every form in turn (the first two in every quick run)
+    _len1_counter[0] += 1
     if which == "d[0]*x + A@x":                       # one element of a longer vector parameter is a length-one operand too
         pars.append(("d", "plain", dict(value=ROUND(r, 3))))
         e0 = ("sub", ("add", ("mul", ("par", 2, ("i", 0)), X), ("matvec", 0, n, X)), ("num", 1.0))
@@ -553,6 +556,7 @@ def run(rep, tier, seed):
     failed = rep.add_proof(prove("C18"))
     rng = np.random.default_rng(seed)
     _matvec_counter[0] = 0
+    _len1_counter[0] = 0
     per_family = 3 if tier == "quick" else 40
     tmp = tempfile.mkdtemp(prefix="c18_")
     lines, slots = [], []
